@@ -140,7 +140,12 @@ var coreKinds = []string{"json", "nop", "level-above-fatal", "sampler-drops-all"
 	// the write itself fails (closed file, full disk, a hook returning an error): the terminal action still runs
 	"failing-sink", "tee(failing-sink,json)", "hooks-returning-error",
 	// another goroutine keeps writing to the same locked sink while the terminal entry is logged
-	"locked-sink-contended"}
+	"locked-sink-contended",
+	// a tee member that is switched off while a child logger is derived and switched on afterwards: the
+	// final entry goes through the child and must reach both members
+	"tee-member-switched-on-after-child-derived"}
+
+var inProcessOnly = map[string]bool{"tee-member-switched-on-after-child-derived": true}
 
 // failWS fails every call.
 type failWS struct{}
@@ -158,6 +163,8 @@ type built struct {
 	// final entry's write" can be required then
 	contended bool
 	stop      func()
+	// derive, when set, turns the constructed logger into the one the final entry is logged through
+	derive func(*zap.Logger) *zap.Logger
 }
 
 var cfg = zapcore.EncoderConfig{MessageKey: "msg", LevelKey: "level", EncodeLevel: zapcore.LowercaseLevelEncoder}
@@ -187,6 +194,15 @@ func buildCore(kind string, ws func(*rec.Sink) zapcore.WriteSyncer) built {
 			panic(err)
 		}
 		return built{core: c, sinks: []*rec.Sink{s}, enabled: true}
+	case "tee-member-switched-on-after-child-derived":
+		s2 := &rec.Sink{}
+		gate := zap.NewAtomicLevelAt(zapcore.FatalLevel + 1)
+		return built{core: zapcore.NewTee(io(s, gate), io(s2, zapcore.DebugLevel)), sinks: []*rec.Sink{s, s2}, enabled: true,
+			derive: func(l *zap.Logger) *zap.Logger {
+				child := l.With(zap.Int("child", 1))
+				gate.SetLevel(zapcore.DebugLevel)
+				return child
+			}}
 	case "failing-sink":
 		return built{core: zapcore.NewCore(zapcore.NewJSONEncoder(cfg), failWS{}, zapcore.DebugLevel), enabled: true}
 	case "tee(failing-sink,json)":
@@ -463,6 +479,9 @@ func inProcess(r *ev.Run) {
 			opts = append(opts, zap.WithPanicHook(hk), zap.WithFatalHook(hk))
 		}
 		lg := construct(route, b.core, c.dev, opts)
+		if b.derive != nil {
+			lg = b.derive(lg)
+		}
 		r.SetAdd("construction_routes", route)
 		msg := mkMsg(c.msg, fmt.Sprintf("final-%d", ci))
 		o := runCall(func() { c.fe.call(lg, c.lvl, msg) })
@@ -634,6 +653,9 @@ func outOfProcess(r *ev.Run) {
 	var cells []cell
 	for i := range fes {
 		for _, ck := range coreKinds {
+			if inProcessOnly[ck] {
+				continue
+			}
 			for _, hk := range []string{"unset", "nil", "WriteThenNoop", "OnFatal(WriteThenNoop)"} {
 				for _, mk := range []string{"normal", "blank", "large"} {
 					cells = append(cells, cell{i, ck, hk, mk})
